@@ -15,9 +15,11 @@ const char* ALLREADERS[] = {"r.table", "r.lines", "r.optfile", "r.optmap", "r.pa
 
 long chunkPick(Rng& rng, double pChunk) { static const std::vector<long> C = {1, 2, 3, 5, 7, 16, 64}; return rng.chance(pChunk) ? rng.pick(C) : 0; }
 
-// The confirmed defects of the unchanged tree live behind exact triggers; the generator produces each of them only in
-// a small fraction of the runs (cfg "risky"), by construction, so that they neither hide deeper behaviour nor exhaust
-// the worker-restart budget of the driver.  The checks themselves are never weakened.
+// Exact triggers of defects that were found with this harness and have since been repaired (fixes/01..11) are generated at
+// full rate by the ordinary generator; in addition about 2 % of the runs ("risky") append one deliberately constructed
+// trigger so that each of those repairs stays covered (see the revert-of-fix mutants).  The one trigger that is still a
+// known finding (a distribution parameter damaged into an astronomically large number: non-termination) is kept out of
+// the generated plans by construction and lives as a replay file under known/.
 struct Swarm { std::vector<double> kindW, faultW; double pChunk, pCross, pNatural; bool risky; };
 
 // ---- text-level recognisers of the exact triggers of confirmed defects (generator side only)
@@ -37,22 +39,23 @@ bool badClassCount(const std::string& s) {                 // an n= argument tha
   }
   return false;
 }
-// numeric argument values that the number grammar accepts but that are zero, negative, huge or tiny: a damaged parameter
-// value of that kind reaches the distribution constructors unvalidated (confirmed crashes / non-termination in the
-// discretisation code), so ordinary runs do not create NEW ones (values the writer itself produced are fine)
+// numeric argument values that the number grammar accepts but that are astronomically large (a digit damaged into an
+// exponent sign): such a parameter value reaches the distribution numerics unvalidated and the quantile search does not
+// terminate (known finding, kept: hang:r.dist.param).  Ordinary runs do not create NEW ones.
 long extremeNumbers(const std::string& s) {
   long n = 0;
   for (size_t p = s.find('='); p != std::string::npos; p = s.find('=', p + 1)) {
     size_t e = s.find_first_of(",)\n", p + 1); std::string v = s.substr(p + 1, e == std::string::npos ? std::string::npos : e - p - 1);
     if (v.empty() || v.find_first_not_of("0123456789.e+-") != std::string::npos) continue;
     char* end = nullptr; double x = strtod(v.c_str(), &end);
-    if (!(x > 1e-4 && x < 1e4)) ++n;
+    if (!(std::abs(x) < 1e6)) ++n;
+    else if (x <= 0 && s.find("TruncExponential") != std::string::npos) ++n;     // lambda = 0 (negative values are clamped to 0): same known non-termination
   }
   return n;
 }
 long riskScore(const Doc& d) {
   long n = 0;
-  for (auto& f : d.stored) { if ((d.kind == K_OPT || d.kind == K_CHAIN) && trailingContinuation(f)) n += 100; if (badClassCount(f)) n += 100; if (d.kind == K_DIST) n += extremeNumbers(f); }
+  for (auto& f : d.stored) if (d.kind == K_DIST) n += extremeNumbers(f);
   return n;
 }
 
@@ -64,6 +67,7 @@ void genReads(Rng& rng, const Swarm& sw, Plan& p, int kind, long docIdx) {
     else { std::vector<std::string> nat = naturalReaders(kind); rk = rng.pick(nat); if (rng.chance(sw.pNatural)) opts |= NATURAL; }
     Op r(rk, docIdx, opts, chunkPick(rng, sw.pChunk), rng.below(1 << 16));
     p.ops.push_back(r);
+    if (rk == "r.table" && rng.chance(0.3)) p.ops.push_back(Op("r.trowname", 0, rng.below(8), rng.below(2)));
     if (rk == "r.table") { long ne = rng.below(3); for (long e = 0; e < ne; ++e) p.ops.push_back(Op("r.tedit", 0, rng.below(8), rng.below(8), rng.below(18 * 18 * 18))); }
     if (rk == "r.optfile" || rk == "r.optmap" || rk == "r.parseopts") {
       if (rk != "r.parseopts" && rng.chance(0.7)) p.ops.push_back(Op("r.resolve", 0, rng.below(12)));
@@ -108,14 +112,12 @@ public:
                      "separator / delimiter / bracket string options are never empty (an empty delimiter is not a character option of a stored format)",
                      "unparseRemainingTokens is not called on NestedStringTokenizer (the class records no separators; independent of the input)",
                      "table editing calls use index operands up to one past the end and sizes up to one off; tables whose counters have wrapped after an earlier (allowed) edit are left alone",
-                     "calls whose input would make TextTools::fromString<T>/to<T> convert an EMPTY string (range vector with an empty bound, distribution argument with an empty value) are skipped and counted (probes hazard:*): the result is an uninitialised value (confirmed defect) whose consequences do not replay without MemorySanitizer",
-                     "the exact triggers of the confirmed defects (file ending in a continuation backslash, class count not a small positive integer, new zero/negative/huge numeric distribution argument, TruncExponential, setRowName without row names, unparseRemainingTokens on an empty token list, separator-only row) are kept out of ordinary runs by the generator and constructed deliberately in about 1 run in 4000 (cfg risky/trigger)",
-                     "non-terminating triggers (cyclic variable definitions where an earlier key refers to a self-referencing one; overflowing exponent in a distribution parameter) are not generated by any tier because each costs the driver 10-30 CPU-seconds per shrink execution; they are kept as replay files under replays/",
+                     "a NEW numeric distribution argument of magnitude >= 1e6, or a NEW zero/negative argument of a TruncExponential, is never created by the generated faults (known finding hang:r.dist*: the discretisation does not terminate for such parameter values; each hang costs the driver the CPU limit per execution); kept as known/C16-hang-dist-overflowing-exponent.replay and known/C16-hang-truncexp-lambda-zero.replay",
                      "allocation failure is not injected; ASan max_allocation_size_mb=256 turns unbounded allocation into a report"};
     i.ubsanGates = true;
     return i;
   }
-  long defaultRuns(Tier t) const override { return t == QUICK ? 30000 : 1500000; }
+  long defaultRuns(Tier t) const override { return t == QUICK ? 24000 : 1500000; }
 
   // ---- enumerated prefix: every cut point (0..511) of 27 small documents, 32 cut points per plan
   static const long NDOCS = 27, BLOCKS = 16, PER = 32;
@@ -124,8 +126,8 @@ public:
     int kind = static_cast<int>(j % NKIND); Rng r(static_cast<uint64_t>(1000 + j));
     long shape = r.below(1 << 14);
     if (kind == K_TABLE) shape = (2 + j / NKIND) + 7 * (2 + j / NKIND) + 49 * ((j / NKIND == 0 ? 3 : (j / NKIND == 1 ? 1 : 0)) + 32 * (j / NKIND));
-    if (kind == K_DIST) shape = (j / NKIND == 0 ? 0 : (j / NKIND == 1 ? 7 : 9)) + 10 * 2;
-    if (kind == K_OPT) shape = 5 + 9 * (1 | 2 | (j / NKIND == 0 ? 4 : 0) | (j / NKIND == 2 ? 32 : 0));
+    if (kind == K_DIST) shape = (j / NKIND == 0 ? 4 : (j / NKIND == 1 ? 7 : 9)) + 10 * 2 + 160 * 15;
+    if (kind == K_OPT) shape = 5 + 9 * (1 | 2 | 4 | (j / NKIND == 1 ? 8 : 0) | (j / NKIND == 2 ? 32 : 0));
     if (kind == K_KEYVAL) shape = 3 + j / NKIND;
     return Op(writerOp(kind), 77 + j, shape, 6, 0);
   }
@@ -137,7 +139,6 @@ public:
     std::vector<std::string> nat = naturalReaders(kind);
     for (long c = block * PER; c < (block + 1) * PER; ++c) {
       if (have && c > static_cast<long>(base.orig[0].size())) break;
-      if (have && trailingContinuation(base.orig[0].substr(0, static_cast<size_t>(c)))) continue;     // exact trigger of a confirmed defect: left to the rare risky runs
       Op f("f.torn", 0, 1, 0, c); p.ops.push_back(f);
       for (auto& rk : nat) {
         p.ops.push_back(Op(rk, 0, NATURAL | (c & 1), (c % 3 == 0) ? 3 : 0, c));
@@ -160,14 +161,13 @@ public:
     sw.pChunk = rng.chance(0.3) ? 0 : rng.real(0.2, 0.9);
     sw.pCross = rng.chance(0.5) ? 0 : rng.real(0.05, 0.4);
     sw.pNatural = rng.real(0.3, 0.95);
-    sw.risky = rng.chance(0.00025);
+    sw.risky = rng.chance(0.02);
     p.cfg["risky"] = sw.risky;
     long T = rng.range(1, 4), written = 0;
     for (long t = 0; t < T; ++t) {
       int kind = static_cast<int>(rng.weighted(sw.kindW));
       long shape = rng.below(1 << 16);
-      if (kind == K_OPT) shape = shapeWithoutCycles(shape);
-      if (kind == K_DIST) shape = shape % 160 + 160 * (2 | 4 | 8);     // TruncExponential crashes the reader even undamaged: risky runs only
+      if (kind == K_DIST) shape = shape % 160 + 160 * 15;
       Op w(writerOp(kind), static_cast<long>(rng.next() & 0x3fffffff), shape, rng.below(13), 0);
       p.ops.push_back(w);
       long docIdx = written < static_cast<long>(MAXDOCS) ? written : (written - static_cast<long>(MAXDOCS)) % static_cast<long>(MAXDOCS);
@@ -196,12 +196,10 @@ public:
     return p;
   }
 
-  // one deliberately constructed trigger of a confirmed defect (risky runs only, about 1 run in 4000)
-  // The non-terminating triggers (5, 6, 8: cyclic variable definitions, overflowing exponent in a distribution parameter)
-  // cost the driver 10-30 CPU-seconds per execution while it shrinks them, so no tier generates them; they are kept as
-  // hand-written replay files under replays/ (see the report).
+  // one deliberately constructed trigger of a repaired defect (about 1 run in 50)
+  // Trigger 8 (overflowing exponent in a distribution parameter) is the known non-termination: never generated.
   static void genTrigger(Rng& rng, Plan& p, long docIdx, Tier tier) {
-    static const std::vector<long> Q = {0, 1, 2, 3, 4, 7, 9};
+    static const std::vector<long> Q = {0, 1, 2, 3, 4, 5, 6, 7, 9};
     (void)tier;
     long which = rng.pick(Q); p.cfg["trigger"] = which + 1;
     long seed = static_cast<long>(rng.next() & 0x3fffffff);
@@ -222,11 +220,11 @@ public:
         p.ops.push_back(Op("r.dist", docIdx, NATURAL, 0, 0)); return;
       }
       case 2:         // any TruncExponential description, undamaged
-        p.ops.push_back(Op("w.dist", seed, 4 + 10 * rng.below(8) + 160 * (1 | 2 | 4 | 8), 6, 0)); p.ops.push_back(Op("r.dist.truncexp", docIdx, NATURAL, 0, 0)); return;
+        p.ops.push_back(Op("w.dist", seed, 4 + 10 * rng.below(8) + 160 * (1 | 2 | 4 | 8), 6, 0)); p.ops.push_back(Op("r.dist", docIdx, NATURAL, 0, 0)); return;
       case 3:         // setRowName on a table read without row names
         p.ops.push_back(Op("w.table", seed, 3 + 7 * 3 + 49 * 1, 0, 0)); p.ops.push_back(Op("r.table", docIdx, NATURAL, 0, 0)); p.ops.push_back(Op("r.trowname", 0, rng.below(3), rng.below(2))); return;
       case 4:         // unparseRemainingTokens on an empty token list
-        p.ops.push_back(Op("w.keyval", seed, rng.below(14), 0, 0)); p.ops.push_back(Op("f.lost", docIdx, 0, 0, 0)); p.ops.push_back(Op("r.tok.risky", docIdx, RISKY | rng.below(4), 0, K_KEYVAL)); return;
+        p.ops.push_back(Op("w.keyval", seed, rng.below(14), 0, 0)); p.ops.push_back(Op("f.lost", docIdx, 0, 0, 0)); p.ops.push_back(Op("r.tok", docIdx, rng.below(4), 0, K_KEYVAL)); return;
       case 5: {       // cyclic definitions in which a variable refers to itself twice and an earlier key refers to it
         for (int tries = 0; tries < 400; ++tries, ++seed) {
           Op w("w.opt", seed, 4 + rng.below(5) + 9 * (1 | 8), 0, 0); Doc d; Exec::makeDoc(w, false, d);
@@ -242,7 +240,7 @@ public:
         size_t pos = d.orig[0].find(which == 7 ? "a=" : "beta="); if (pos == std::string::npos) return;
         pos = d.orig[0].find('=', pos) + 1;
         p.ops.push_back(w); Op f("f.set", docIdx, 1, 0, static_cast<long>(pos) + (which == 7 ? 0 : 1)); f.x = which == 7 ? '-' : 'e'; p.ops.push_back(f);
-        p.ops.push_back(Op("r.dist.param", docIdx, NATURAL, 0, 0)); return;
+        p.ops.push_back(Op("r.dist", docIdx, NATURAL, 0, 0)); return;
       }
       case 9: {       // a row of a row-named table overwritten with separators only (multi-byte corruption of one line)
         Op w("w.table", seed, 2 + 7 * 3 + 49 * (1 | 2) + 49 * 32 * 1, 0, 0); Doc d; if (!Exec::makeDoc(w, false, d)) return;
@@ -250,17 +248,12 @@ public:
         size_t e = t.size() - 1, b = t.rfind('\n', e - 1); if (b == std::string::npos) return;
         p.ops.push_back(w);
         for (size_t q = b + 1; q < e; ++q) if (t[q] != ',') { Op f("f.set", docIdx, 0, 0, static_cast<long>(q)); f.x = ','; p.ops.push_back(f); }
-        p.ops.push_back(Op("r.table.seprow", docIdx, NATURAL, 0, 0)); return;
+        p.ops.push_back(Op("r.table", docIdx, NATURAL, 0, 0)); return;
       }
       default:        // cyclic definitions in general (legal input)
         p.ops.push_back(Op("w.opt", seed, 3 + rng.below(6) + 9 * (1 | 8 | (rng.below(2) ? 2 : 0)), 0, 0)); p.ops.push_back(Op("r.optfile", docIdx, NATURAL, 0, 0)); p.ops.push_back(Op("r.resolve", 0, 0)); return;
     }
   }
-  // cyclic variable definitions are legal input, and a confirmed non-termination lives there: only the rare "risky" runs write them
-  // also: references and continuation lines are not combined in one ordinary document, because a dropped/torn continuation
-  // line can splice "k=v\\" with "k2=$(k)" into a self-referencing definition (same non-termination)
-  static long shapeWithoutCycles(long shape) { long n = shape % 9, bits = shape / 9; bits &= ~8L; if ((bits & 1) && (bits & 4)) bits &= (shape & 512) ? ~1L : ~4L; return n + 9 * bits; }
-
   void execute(const Plan& p, Ctx& ctx) const override {
     Exec e(p, ctx, false);
     static const bool halting = [] { const char* u = getenv("UBSAN_OPTIONS"); return u && strstr(u, "halt_on_error=1"); }();
